@@ -376,6 +376,24 @@ def run(ctx):
     for i in range(ctx.n(28, 220)):
         specs.append(phase_cli.make_spec(rng, trio=(i % 3 == 0), tag="PS", low_cov_gaps=False))
     check_cli(ctx, specs, "cli")
+    check_cap_limit(ctx)
+
+
+def check_cap_limit(ctx):
+    """validate(): --internal-downsampling above 23 is refused (2^k table rows per column)."""
+    from ..util import run_cli
+    wd = workdir(ctx)
+    spec = phase_cli.make_spec(ctx.rng, trio=False, k=24, nvars=6, depth_reads=12, phased_input=False, nchrom=1)
+    _, ref, vcf, bam, _, _ = phase_cli.build_inputs(spec, wd)
+    for k, want_ok in ((24, False), (23, True)):
+        rc, so, se = run_cli(ctx, ["phase", "--reference", ref, "-o", os.path.join(wd, f"o{k}.vcf"),
+                                   "--internal-downsampling", k, vcf, bam], cwd=wd)
+        ctx.count(("cap-limit", k), nontrivial=True)
+        ctx.tally("cli.cap_limit_runs")
+        if (rc == 0) != want_ok:
+            ctx.violation("readselect:cap-limit", f"--internal-downsampling {k}: exit code {rc}, expected "
+                          f"{'success' if want_ok else 'rejection (must not exceed 23)'}: {se[-300:]}",
+                          {"kind": "cap-limit"})
 
 
 def replay(ctx, data):
@@ -385,5 +403,7 @@ def replay(ctx, data):
         check_direct(ctx, [(reads, data["k"], data["pref"], data["bridging"])], "replay")
     elif data.get("kind") == "cli":
         check_cli(ctx, [data["spec"]], "replay")
+    elif data.get("kind") == "cap-limit":
+        check_cap_limit(ctx)
     else:
         run(ctx)
